@@ -7,8 +7,7 @@ coons_patch, edge_surfaces, extrude).
 
 Encodings: a selector is the word `none` or an integer; keyword selectors are `[[dir,sel],…]` with
 `dir ∈ {0,1,2}` for `u,v,w`; a `section` result is `[Class,<obj>]` or `[ndarray,[shape],[flat]]`.
-`unsupported` = the input is outside the modelled scope (the harness never sends such a request and
-treats the word as a disagreement).
+`unsupported` is answered only for `sec_thicken` (not modelled).
 -/
 
 namespace Splipy.Driver.C15
@@ -55,11 +54,6 @@ def decodeDir : Val → Option (Int ⊕ String)
 
 def unsupported : Val := .str "unsupported"
 
-def ofOpt (f : Obj ℚ → Val) : PyM (Option (Obj ℚ)) → Val
-  | .ok (some o) => f o
-  | .ok none => unsupported
-  | .error e => e.toVal
-
 def optNat : Option ℕ → Val
   | none => .str "none"
   | some n => Val.ofNat n
@@ -89,7 +83,6 @@ def handle : Handler
       let some args := decodeSec av | return bad
       let some kw := decodeKw kv | return bad
       let some unwrap := uv.toBool? | return bad
-      if args.length > o.pardim then return unsupported
       return ofExcept encodeRes (o.section args kw unwrap)
   | "sec_corners", [ov, fv] => some <| Id.run do
       let some o := decodeObj ov | return bad
@@ -109,19 +102,22 @@ def handle : Handler
       let some knot := kv.toRat? | return bad
       let some d := decodeDir dv | return bad
       return ofExcept encodeObj (o.constParCurve tol knot d)
-  | "sec_edge_curves", [csv, rv, av] => some <| Id.run do
+  | "sec_edge_curves", [csv, tv, rv, av] => some <| Id.run do
       let some cs := decodeObjs csv | return bad
+      let some tol := tv.toRat? | return bad
       let some rtol := rv.toRat? | return bad
       let some atol := av.toRat? | return bad
-      return ofOpt encodeObj (Obj.edgeCurves cs rtol atol)
-  | "sec_coons", [csv] => some <| Id.run do
+      return ofExcept encodeObj (Obj.edgeCurves tol cs rtol atol)
+  | "sec_coons", [csv, tv] => some <| Id.run do
       let some cs := decodeObjs csv | return bad
+      let some tol := tv.toRat? | return bad
       match cs with
-      | [a, b, c, d] => return ofOpt encodeObj (Obj.coonsPatch a b c d)
+      | [a, b, c, d] => return ofExcept encodeObj (Obj.coonsPatch tol a b c d)
       | _ => return bad
-  | "sec_edge_surfaces", [ssv] => some <| Id.run do
+  | "sec_edge_surfaces", [ssv, tv] => some <| Id.run do
       let some ss := decodeObjs ssv | return bad
-      return ofOpt encodeObj (Obj.edgeSurfaces ss)
+      let some tol := tv.toRat? | return bad
+      return ofExcept encodeObj (Obj.edgeSurfaces tol ss)
   | "sec_extrude", [ov, av] => some <| Id.run do
       let some o := decodeObj ov | return bad
       let some a := av.toRats? | return bad
